@@ -17,7 +17,7 @@ ASSUMPTIONS = [
 
 def run(ctx):
     results = cluster_model.run_all(ctx, "C01")
-    cov = cluster_model.judge(ctx, results, {"C01", "C02", "C07", "C19"})
+    cov = cluster_model.judge(ctx, results, {"C01", "C02", "C05", "C07", "C19"})
     return vlib.finish(ctx, "model_checking", cov, ASSUMPTIONS)
 
 
